@@ -33,6 +33,34 @@ static void gen(const RunCfg &c, Rng &r, std::vector<Step> &plan, const std::vec
 // ---------------------------------------------------------------------------------------------
 // configuration
 // ---------------------------------------------------------------------------------------------
+// C16: the system configuration the virtual files present; variant k is what the files say after the k-th rewrite.
+// It disagrees with anything the application may set (other servers, other domains, other numbers).
+struct C16Conf { std::vector<std::string> nameservers, search; int ndots, timeout_s, attempts, rotate, usevc; std::string text; };
+static C16Conf c16_conf(const RunCfg &c, int variant) {
+  C16Conf f;
+  Rng r(hash_mix(c.seed * 0x9E3779B97F4A7C15ULL + 0xC16, (uint64_t)variant));
+  if (c.server_source == 2 && variant == 0) { for (auto &sv : c.servers) f.nameservers.push_back(sv.ip + (sv.iface.empty() ? "" : "%" + sv.iface)); }
+  else { int n = 1 + (int)r.below(3); for (int i = 0; i < n; i++) f.nameservers.push_back(r.chance(0.7) ? "10.99." + std::to_string(variant % 200) + "." + std::to_string(i + 1) : "fd99::" + std::to_string(variant % 200) + ":" + std::to_string(i + 1)); }
+  int nsrch = (int)r.below(3);
+  for (int i = 0; i < nsrch; i++) f.search.push_back("sys" + std::to_string(variant) + "x" + std::to_string(i) + ".test");
+  f.ndots = r.chance(0.6) ? 10 + (int)r.below(5) : -1;
+  f.timeout_s = r.chance(0.6) ? 7 + (int)r.below(5) : -1;
+  f.attempts = r.chance(0.6) ? 7 + (int)r.below(3) : -1;
+  f.rotate = r.chance(0.4);
+  f.usevc = r.chance(0.3);
+  for (auto &n : f.nameservers) f.text += "nameserver " + n + "\n";
+  if (!f.search.empty()) { f.text += "search"; for (auto &d : f.search) f.text += " " + d; f.text += "\n"; }
+  std::string o;
+  if (f.ndots >= 0) o += " ndots:" + std::to_string(f.ndots);
+  if (f.timeout_s >= 0) o += " timeout:" + std::to_string(f.timeout_s);
+  if (f.attempts >= 0) o += " attempts:" + std::to_string(f.attempts);
+  if (f.rotate) o += " rotate";
+  if (f.usevc) o += " use-vc";
+  if (!o.empty()) f.text += "options" + o + "\n";
+  return f;
+}
+static std::string c16_conf_text(const RunCfg &c, int variant) { return c16_conf(c, variant).text; }
+
 void profile_cfg_more(const std::string &prof, uint64_t seed, RunCfg &c, Rng &r) {
   (void)seed;
   if (prof == "C03") {
@@ -55,6 +83,62 @@ void profile_cfg_more(const std::string &prof, uint64_t seed, RunCfg &c, Rng &r)
       c.beh_w = {0, 10, 5, 0, 0, 0, 0, 80, 0, 0, 5, 0, 0, 0, 0};
       if (r.chance(0.5)) c.knobs["nactive"] = 1;
     }
+  } else if (prof == "C16") {
+    c.allow_cancel_in_cb = 0;
+    c.faults = 0;
+    c.beh_w = {100, 0, 0, 0, 0, 0, 0, 0, 0, 0, 0, 0, 0, 0, 0};
+    // every option is independently set or left to the system configuration
+    c.flags = r.chance(0.5) ? -1 : (int)((r.chance(0.5) ? ARES_FLAG_EDNS : 0) | (r.chance(0.3) ? ARES_FLAG_STAYOPEN : 0) | (r.chance(0.2) ? ARES_FLAG_NOSEARCH : 0) | (r.chance(0.2) ? ARES_FLAG_IGNTC : 0) | (r.chance(0.15) ? ARES_FLAG_USEVC : 0) | (r.chance(0.2) ? ARES_FLAG_NOALIASES : 0) | (r.chance(0.2) ? ARES_FLAG_DNS0x20 : 0));
+    c.tries = r.chance(0.5) ? -1 : 1 + (int)r.below(6);
+    c.timeout_ms = r.chance(0.5) ? -1 : (r.chance(0.3) ? 1 + (int)r.below(20) : 200 + (int)r.below(4000));
+    c.maxtimeout_ms = r.chance(0.6) ? -1 : 300 + (int)r.below(9000);
+    c.rotate = r.chance(0.5) ? -1 : (int)r.below(2);
+    c.udp_max_queries = r.chance(0.6) ? -1 : (int)r.below(5);
+    c.ndots = r.chance(0.5) ? -1 : (int)r.below(6);
+    c.set_domains = r.chance(0.5) ? 1 : 0;
+    c.domains.clear();
+    if (c.set_domains) { int nd = (int)r.below(4); static const char *doms[] = {"user1.test", "user2.test", "sub.user3.test", "user4.test"}; for (int i = 0; i < nd; i++) c.domains.push_back(doms[(r.below(4) + (uint64_t)i) % 4]); }
+    c.lookups = r.chance(0.5) ? "" : (r.chance(0.4) ? "b" : (r.chance(0.5) ? "bf" : "fb"));
+    c.qcache_max_ttl = r.chance(0.5) ? -1 : (int)r.below(900);
+    if (r.chance(0.4)) { c.retry_chance = (int)r.below(20); c.retry_delay = (int)r.below(9000); } else { c.retry_chance = -1; c.retry_delay = -1; }
+    c.ednspsz = r.chance(0.6) ? -1 : 512 + (int)r.below(3500);
+    c.sndbuf = r.chance(0.7) ? -1 : 4096 + (int)r.below(60000);
+    c.rcvbuf = r.chance(0.7) ? -1 : 4096 + (int)r.below(60000);
+    static const char *sl[] = {"", "", "10.0.0.0/8", "10.1.0.0/255.255.0.0 10.0.0.0/8", "fd00::/8", "192.0.2.0/24 10.128.0.0/9"};
+    c.sortlist = sl[r.below(6)];
+    c.local_dev = r.chance(0.25) ? "eth0" : "";
+    c.local_ip4 = r.chance(0.2) ? 0xC0000250 : 0;
+    c.local_ip6 = r.chance(0.15);
+    c.sockfuncs = 0; c.tfo = 0; c.pending_write_cb = 0; c.sock_create_cb = 0; c.sock_config_cb = 0;
+    // server sets: IPv4 / IPv6 / link-local, default, equal and differing UDP/TCP ports, through each encoding
+    c.servers.clear();
+    int ns = 1 + (int)r.below(4);
+    c.server_source = (int)r.below(5);   // 0 csv, 1 legacy ipv4 option, 2 system configuration, 3 addr nodes, 4 addr+port nodes
+    for (int i = 0; i < ns; i++) {
+      ServerSpec sv;
+      int kind = (int)r.below(10);
+      if (c.server_source == 1) kind = 0;
+      if (kind < 5) sv.ip = "10.53.0." + std::to_string(i + 1);
+      else if (kind < 8) sv.ip = "fd53::" + std::to_string(i + 1);
+      else { sv.ip = "fe80::" + std::to_string(i + 1); sv.iface = r.chance(0.5) ? "eth0" : "eth1"; }
+      if (c.server_source == 0 || c.server_source == 4) {
+        int pk = (int)r.below(4);
+        if (pk == 1) { sv.udp_port = sv.tcp_port = 5300 + (int)r.below(50); }
+        else if (pk == 2) { sv.udp_port = 5300 + (int)r.below(50); sv.tcp_port = 5400 + (int)r.below(50); }
+        else if (pk == 3 && c.server_source == 0) { sv.udp_port = 53; sv.tcp_port = 853 + (int)r.below(5); }
+      }
+      if (c.server_source == 2 || c.server_source == 3) { sv.udp_port = sv.tcp_port = 53; }
+      if (c.server_source == 3 || c.server_source == 4) sv.iface = sv.ip.compare(0, 4, "fe80") == 0 ? sv.iface : "";
+      if ((c.server_source == 3 || c.server_source == 4) && sv.ip.compare(0, 4, "fe80") == 0) { sv.ip = "fd53::" + std::to_string(i + 1); sv.iface = ""; }   // node lists carry no interface
+      c.servers.push_back(sv);
+    }
+    c.knobs["conf_variant"] = 0;
+    c.resolv_conf = c16_conf_text(c, 0);
+    c.nsswitch = r.chance(0.5) ? "" : (r.chance(0.5) ? "hosts: files dns\n" : "hosts: dns files\n");
+    c.env.clear();
+    if (r.chance(0.3)) c.env["LOCALDOMAIN"] = "envdom1.test envdom2.test";
+    if (r.chance(0.3)) c.env["RES_OPTIONS"] = "ndots:" + std::to_string(7 + r.below(3)) + (r.chance(0.5) ? " retrans:" + std::to_string(1 + r.below(3)) : "") + (r.chance(0.5) ? " retry:" + std::to_string(1 + r.below(5)) : "") + (r.chance(0.3) ? " rotate" : "");
+    c.qtypes = {1, 28};
   } else if (prof == "C14") {
     // healthy network: the only fault of a C14 run is the one failing allocation
     c.faults = 0;
@@ -314,6 +398,11 @@ bool profile_plan_more(const RunCfg &c, Rng &r, std::vector<Step> &plan) {
       if (s.k == S_REQ) s.d = (s.d / R_NREACT) * R_NREACT + R_NONE;
       plan.push_back(s);
     }
+    return true;
+  }
+  if (p == "C16") {
+    gen(c, r, plan, weights({{S_REQ, 10}, {S_ADV, 14}, {S_DUP, 14}, {S_SAVEOPT, 14}, {S_CSVROUND, 10}, {S_REINIT, 14}, {S_FILE, 12}, {S_SETSRV, 6}, {S_SORTLIST, 3}, {S_LOCAL, 3}}), 6, 30);
+    for (auto &s : plan) { if (s.k == S_REQ) s.d = (s.d / R_NREACT) * R_NREACT + R_NONE; if (s.k == S_ADV) { s.a = 0; s.b = 0; } }
     return true;
   }
   if (p == "C14") {
@@ -1455,6 +1544,268 @@ static void c20_after(Run &run) {
 }
 
 // ---------------------------------------------------------------------------------------------
+// C16: configuration saved, duplicated and re-applied losslessly; user settings win
+// ---------------------------------------------------------------------------------------------
+struct C16Srv { int family; std::string addr; int udp, tcp; bool operator==(const C16Srv &o) const { return family == o.family && addr == o.addr && udp == o.udp && tcp == o.tcp; } };
+struct C16Snap {
+  std::map<std::string, std::string> eff;     // effective settings (white-box read), empty if unavailable
+  std::string csv;                            // ares_get_servers_csv
+  std::vector<C16Srv> ports;                  // ares_get_servers_ports
+  int save_rc = -1, mask = 0;
+  std::map<std::string, std::string> saved;   // what ares_save_options reports, per option bit in its mask
+};
+static std::string c16_srvs_text(const std::vector<C16Srv> &v) {
+  std::string o;
+  for (auto &x : v) { char b[64] = ""; inet_ntop(x.family, x.addr.data(), b, sizeof b); o += (o.empty() ? "" : ",") + std::string(b) + "/" + std::to_string(x.udp) + "/" + std::to_string(x.tcp); }
+  return "[" + o + "]";
+}
+static void c16_snap(ares_channel_t *ch, C16Snap &sn) {
+  sn = C16Snap();
+  char buf[4096];
+  size_t n = peek_full(ch, buf, sizeof buf);
+  std::string txt(buf, n);
+  size_t p0 = 0;
+  while (p0 < txt.size()) { size_t e = txt.find('\n', p0); if (e == std::string::npos) e = txt.size(); std::string ln = txt.substr(p0, e - p0); size_t eq = ln.find('='); if (eq != std::string::npos) sn.eff[ln.substr(0, eq)] = ln.substr(eq + 1); p0 = e + 1; }
+  char *csv = ares_get_servers_csv(ch);
+  sn.csv = csv ? csv : "(null)";
+  if (csv) ares_free_string(csv);
+  struct ares_addr_port_node *nodes = nullptr;
+  if (ares_get_servers_ports(ch, &nodes) == ARES_SUCCESS) {
+    for (auto *q = nodes; q; q = q->next) { C16Srv x; x.family = q->family; x.addr.assign((const char *)&q->addr, q->family == AF_INET ? 4 : 16); x.udp = q->udp_port; x.tcp = q->tcp_port; sn.ports.push_back(x); }
+    if (nodes) ares_free_data(nodes);
+  }
+  struct ares_options o; memset(&o, 0, sizeof o);
+  sn.save_rc = ares_save_options(ch, &o, &sn.mask);
+  if (sn.save_rc == ARES_SUCCESS) {
+    int m = sn.mask;
+    if (m & ARES_OPT_FLAGS) sn.saved["flags"] = std::to_string(o.flags);
+    if (m & ARES_OPT_TIMEOUTMS) sn.saved["timeout"] = std::to_string(o.timeout);
+    if (m & ARES_OPT_TRIES) sn.saved["tries"] = std::to_string(o.tries);
+    if (m & ARES_OPT_NDOTS) sn.saved["ndots"] = std::to_string(o.ndots);
+    if (m & ARES_OPT_MAXTIMEOUTMS) sn.saved["maxtimeout"] = std::to_string(o.maxtimeout);
+    if (m & ARES_OPT_DOMAINS) { std::string d; for (int i = 0; i < o.ndomains; i++) d += (i ? "," : "") + std::string(o.domains[i] ? o.domains[i] : "(null)"); sn.saved["domains"] = d; }
+    if (m & ARES_OPT_LOOKUPS) sn.saved["lookups"] = o.lookups ? o.lookups : "(null)";
+    if (m & ARES_OPT_SORTLIST) sn.saved["nsort"] = std::to_string(o.nsort);
+    if (m & ARES_OPT_EDNSPSZ) sn.saved["ednspsz"] = std::to_string(o.ednspsz);
+    if (m & ARES_OPT_UDP_MAX_QUERIES) sn.saved["udp_max_queries"] = std::to_string(o.udp_max_queries);
+    if (m & ARES_OPT_QUERY_CACHE) sn.saved["qcache_max_ttl"] = std::to_string(o.qcache_max_ttl);
+    if (m & ARES_OPT_SERVER_FAILOVER) { sn.saved["retry_chance"] = std::to_string(o.server_failover_opts.retry_chance); sn.saved["retry_delay"] = std::to_string(o.server_failover_opts.retry_delay); }
+    if (m & ARES_OPT_SOCK_SNDBUF) sn.saved["sndbuf"] = std::to_string(o.socket_send_buffer_size);
+    if (m & ARES_OPT_SOCK_RCVBUF) sn.saved["rcvbuf"] = std::to_string(o.socket_receive_buffer_size);
+    if (m & ARES_OPT_SERVERS) { std::string d; for (int i = 0; i < o.nservers; i++) { char b[32] = ""; inet_ntop(AF_INET, &o.servers[i], b, sizeof b); d += (i ? "," : "") + std::string(b); } sn.saved["servers_v4"] = d; }
+    sn.saved["rotate"] = (m & ARES_OPT_ROTATE) ? "1" : ((m & ARES_OPT_NOROTATE) ? "0" : "unset");
+  }
+  ares_destroy_options(&o);
+}
+// option bit(s) that make a field the application's
+static int c16_bit_of(const std::string &k) {
+  if (k == "flags") return ARES_OPT_FLAGS;
+  if (k == "timeout") return ARES_OPT_TIMEOUTMS;
+  if (k == "tries") return ARES_OPT_TRIES;
+  if (k == "ndots") return ARES_OPT_NDOTS;
+  if (k == "maxtimeout") return ARES_OPT_MAXTIMEOUTMS;
+  if (k == "rotate") return ARES_OPT_ROTATE | ARES_OPT_NOROTATE;
+  if (k == "sndbuf") return ARES_OPT_SOCK_SNDBUF;
+  if (k == "rcvbuf") return ARES_OPT_SOCK_RCVBUF;
+  if (k == "domains") return ARES_OPT_DOMAINS;
+  if (k == "sortlist") return ARES_OPT_SORTLIST;
+  if (k == "lookups") return ARES_OPT_LOOKUPS;
+  if (k == "ednspsz") return ARES_OPT_EDNSPSZ;
+  if (k == "qcache_max_ttl") return ARES_OPT_QUERY_CACHE;
+  if (k == "udp_max_queries") return ARES_OPT_UDP_MAX_QUERIES;
+  if (k == "retry_chance" || k == "retry_delay") return ARES_OPT_SERVER_FAILOVER;
+  return 0;
+}
+// what the application asked for at init (same text form as the white-box read)
+static std::map<std::string, std::string> c16_user_expect(const Run &run) {
+  const RunCfg &c = run.cfg;
+  std::map<std::string, std::string> u;
+  if (c.flags >= 0) u["flags"] = std::to_string(c.flags);
+  if (c.timeout_ms >= 0) u["timeout"] = std::to_string(c.timeout_ms);
+  if (c.tries >= 0) u["tries"] = std::to_string(c.tries);
+  if (c.ndots >= 0) u["ndots"] = std::to_string(c.ndots);
+  if (c.maxtimeout_ms >= 0) u["maxtimeout"] = std::to_string(c.maxtimeout_ms);
+  if (c.rotate >= 0) u["rotate"] = std::to_string(c.rotate);
+  if (c.udp_max_queries >= 0) u["udp_max_queries"] = std::to_string(c.udp_max_queries);
+  if (c.set_domains && !c.domains.empty()) { std::string d; for (size_t i = 0; i < c.domains.size(); i++) d += (i ? "," : "") + c.domains[i]; u["domains"] = d; }   // an empty list counts as not supplied
+  if (!c.lookups.empty()) u["lookups"] = c.lookups;
+  if (c.qcache_max_ttl >= 0) u["qcache_max_ttl"] = std::to_string(c.qcache_max_ttl);
+  if (c.retry_chance >= 0) { u["retry_chance"] = std::to_string(c.retry_chance); u["retry_delay"] = std::to_string(c.retry_delay < 0 ? 0 : c.retry_delay); }
+  if (c.ednspsz >= 0) u["ednspsz"] = std::to_string(c.ednspsz);
+  if (c.sndbuf >= 0) u["sndbuf"] = std::to_string(c.sndbuf);
+  if (c.rcvbuf >= 0) u["rcvbuf"] = std::to_string(c.rcvbuf);
+  return u;
+}
+static std::vector<C16Srv> c16_expected_servers(const Run &run) {
+  std::vector<C16Srv> v;
+  for (int i : run.active) {
+    const ServerSpec &sv = run.cfg.servers[(size_t)i];
+    C16Srv x; bool v6 = sv.ip.find(':') != std::string::npos;
+    x.family = v6 ? AF_INET6 : AF_INET;
+    char b[16]; inet_pton(x.family, sv.ip.c_str(), b); x.addr.assign(b, v6 ? 16 : 4);
+    x.udp = sv.udp_port; x.tcp = sv.tcp_port;
+    bool dup = false; for (auto &y : v) if (y == x) dup = true;
+    if (!dup) v.push_back(x);
+  }
+  return v;
+}
+static std::map<std::string, std::string> g_c16_user;   // settings the application has made so far (incl. setters after init)
+// (3) settings the application supplied explicitly hold after init and after every reinit
+static void c16_user_wins(Run &run, const char *when) {
+  Chan &c = run.chans[0];
+  if (!c.alive) return;
+  C16Snap sn; c16_snap(c.ch, sn);
+  run.note("user_settings_checked");
+  if (!sn.eff.empty()) for (auto &u : g_c16_user) {
+    auto it = sn.eff.find(u.first);
+    if (it == sn.eff.end()) continue;
+    if (it->second != u.second) { run.violate("C16", "user_setting_overridden", std::string(when) + ": the application set " + u.first + "=" + u.second + " but the channel now uses " + u.first + "=" + it->second + " (system files variant " + std::to_string(run.files_variant) + ")"); return; }
+  }
+  if (run.user_set_servers) {
+    std::vector<C16Srv> want = c16_expected_servers(run);
+    bool had_failures = false; for (auto &e : run.srv_events) if (!e.ok) had_failures = true;
+    std::vector<C16Srv> got = sn.ports;
+    if (had_failures) {   // listed in priority order once failures were recorded: compare as sets
+      auto lt = [](const C16Srv &x, const C16Srv &y) { return std::make_tuple(x.family, x.addr, x.udp, x.tcp) < std::make_tuple(y.family, y.addr, y.udp, y.tcp); };
+      std::sort(got.begin(), got.end(), lt); std::sort(want.begin(), want.end(), lt);
+    }
+    if (!(got == want)) { run.violate("C16", "user_servers_overridden", std::string(when) + ": the application set servers " + c16_srvs_text(want) + " but the channel reports " + c16_srvs_text(sn.ports) + " ('" + sn.csv + "')"); return; }
+    run.note("user_servers_checked");
+  }
+}
+static bool g_c16_reinit_done = false;   // the original has gone through ares_reinit() since it was initialised
+static bool c16_compare(Run &run, const char *what, const C16Snap &a, const C16Snap &b, bool all_fields, int only_mask) {
+  // a = original, b = copy
+  if (!a.eff.empty() && !b.eff.empty()) for (auto &kv : a.eff) {
+    const std::string &k = kv.first;
+    if (k == "optmask") continue;
+    int bit = c16_bit_of(k);
+    bool user = bit && (a.mask & bit);
+    if (only_mask >= 0 && !(bit && (only_mask & bit))) continue;            // save->init only promises what the mask carries
+    if (!user && !all_fields) continue;                                      // system-derived and the files have changed since
+    if (k.compare(0, 6, "local_") == 0 && only_mask >= 0) continue;
+    auto it = b.eff.find(k);
+    // system-derived values of a channel that went through ares_reinit() are judged under their own class: a reinit does not
+    // forget a system setting that the rewritten files no longer mention (known finding KF-C16-1)
+    if ((it == b.eff.end() || it->second != kv.second) && !user && g_c16_reinit_done) { run.violate("C16", (std::string(what) + "_system_setting_differs_after_reinit").c_str(), std::string(what) + ": " + k + " is '" + kv.second + "' on the original (initialised, then ares_reinit) and '" + (it == b.eff.end() ? "?" : it->second) + "' on the copy (initialised from the same files now)"); return false; }
+    if (it == b.eff.end() || it->second != kv.second) { run.violate("C16", (std::string(what) + "_setting_differs").c_str(), std::string(what) + ": " + k + " is '" + kv.second + "' on the original and '" + (it == b.eff.end() ? "?" : it->second) + "' on the copy" + (user ? " (set by the application)" : "")); return false; }
+  }
+  return true;
+}
+static void c16_steps(Run &r, const Step &s) {
+  Chan &c = r.chans[0];
+  if (!c.alive) return;
+  switch (s.k) {
+    case S_FILE: {
+      r.files_variant++;
+      r.files_changed_since_init = true;
+      W.set_file("/etc/resolv.conf", c16_conf_text(r.cfg, r.files_variant));
+      if (s.a & 1) W.set_file("/etc/nsswitch.conf", (s.a & 2) ? "hosts: dns files\n" : "hosts: files\n");
+      r.note("system_files_rewritten");
+      break;
+    }
+    case S_LOCAL: {
+      W.api_seq++;
+      if (s.a & 1) { const char *d = (s.a & 2) ? "eth1" : "eth0"; ares_set_local_dev(c.ch, d); }
+      else ares_set_local_ip4(c.ch, (s.a & 2) ? 0xC0000251 : 0xC0000252);
+      r.note("set_local");
+      break;
+    }
+    case S_DUP: {
+      C16Snap a; c16_snap(c.ch, a);
+      ares_channel_t *copy = nullptr;
+      W.api_seq++;
+      int rc = ares_dup(&copy, c.ch);
+      if (rc == ARES_ENODATA && a.ports.empty()) { r.note("dup_refused_no_servers"); return; }   // a channel without servers is documented as not saveable
+      if (rc != ARES_SUCCESS || !copy) { r.violate("C16", "dup_failed", std::string("ares_dup returned ") + ares_status_name(rc)); return; }
+      C16Snap b; c16_snap(copy, b);
+      r.note("dup_compared");
+      bool ok = c16_compare(r, "dup", a, b, !r.files_changed_since_init, -1);
+      // servers that came from the system configuration are deliberately not cloned: the copy reads the files as they are now
+      bool cmp_servers = r.user_set_servers || !r.files_changed_since_init;
+      if (!cmp_servers) r.note("dup_servers_not_compared_files_changed");
+      // the public getters list servers in current priority order (failure counts first): once the original has seen a
+      // server failure its order is no longer the configuration order, and only the set can be compared
+      bool had_failures = false; for (auto &e : r.srv_events) if (!e.ok) had_failures = true;
+      if (had_failures && cmp_servers) {
+        auto key = [](const C16Srv &x) { return std::to_string(x.family) + x.addr + std::to_string(x.udp) + "/" + std::to_string(x.tcp); };
+        std::vector<std::string> sa2, sb2; for (auto &x : a.ports) sa2.push_back(key(x)); for (auto &x : b.ports) sb2.push_back(key(x));
+        std::sort(sa2.begin(), sa2.end()); std::sort(sb2.begin(), sb2.end());
+        if (ok && sa2 != sb2) { r.violate("C16", "dup_servers_differ", "ares_dup: original servers " + c16_srvs_text(a.ports) + " ('" + a.csv + "'), copy " + c16_srvs_text(b.ports) + " ('" + b.csv + "') (compared as sets: the original has recorded server failures)"); ok = false; }
+        r.note("dup_servers_compared_as_set");
+        cmp_servers = false;
+      }
+      if (ok && cmp_servers && a.ports != b.ports) { r.violate("C16", "dup_servers_differ", "ares_dup: original servers " + c16_srvs_text(a.ports) + " ('" + a.csv + "'), copy " + c16_srvs_text(b.ports) + " ('" + b.csv + "')"); ok = false; }
+      if (ok && cmp_servers && a.csv != b.csv) { r.violate("C16", "dup_servers_differ", "ares_dup: original server list '" + a.csv + "', copy '" + b.csv + "'"); ok = false; }
+      if (ok && a.save_rc == ARES_SUCCESS && b.save_rc == ARES_SUCCESS && (a.mask != b.mask || a.saved != b.saved)) {
+        std::string d;
+        if (a.mask != b.mask) d = "option mask " + std::to_string(a.mask) + " vs " + std::to_string(b.mask);
+        else for (auto &kv : a.saved) { auto it = b.saved.find(kv.first); if (it == b.saved.end() || it->second != kv.second) { d = kv.first + " '" + kv.second + "' vs '" + (it == b.saved.end() ? "?" : it->second) + "'"; break; } }
+        r.violate("C16", "dup_saved_options_differ", "ares_save_options on original and ares_dup copy disagree: " + d);
+      }
+      ares_destroy(copy);
+      break;
+    }
+    case S_SAVEOPT: {
+      C16Snap a; c16_snap(c.ch, a);
+      struct ares_options o; int mask = 0; memset(&o, 0, sizeof o);
+      W.api_seq++;
+      int rc = ares_save_options(c.ch, &o, &mask);
+      if (rc == ARES_ENODATA && a.ports.empty()) { ares_destroy_options(&o); r.note("save_refused_no_servers"); return; }
+      if (rc != ARES_SUCCESS) { ares_destroy_options(&o); r.violate("C16", "save_failed", std::string("ares_save_options returned ") + ares_status_name(rc)); return; }
+      ares_channel_t *n = nullptr;
+      int rc2 = ares_init_options(&n, &o, mask);
+      ares_destroy_options(&o);
+      if (rc2 != ARES_SUCCESS || !n) { r.violate("C16", "init_from_saved_failed", std::string("ares_init_options from saved options returned ") + ares_status_name(rc2)); return; }
+      C16Snap b; c16_snap(n, b);
+      r.note("save_init_compared");
+      bool ok = c16_compare(r, "save_init", a, b, false, mask);
+      // the options structure cannot carry IPv6 servers (documented): without any IPv4 server the bit is dropped by init
+      bool any_v4 = false; for (auto &x : a.ports) if (x.family == AF_INET) any_v4 = true;
+      int cmp_a = a.mask, cmp_b = b.mask;
+      if (!any_v4) { cmp_a &= ~ARES_OPT_SERVERS; cmp_b &= ~ARES_OPT_SERVERS; }
+      if (ok && b.save_rc == ARES_SUCCESS && (cmp_b != cmp_a)) { r.violate("C16", "save_init_mask_differs", "option mask saved from the original is " + std::to_string(a.mask) + ", from the channel initialised with it " + std::to_string(b.mask)); ok = false; }
+      if (ok && (mask & ARES_OPT_SERVERS) && any_v4) {
+        // the options structure carries IPv4 addresses only (documented): compare the IPv4 servers, in order
+        std::vector<C16Srv> av, bv;
+        for (auto &x : a.ports) if (x.family == AF_INET) { C16Srv y = x; y.udp = y.tcp = 0; av.push_back(y); }
+        for (auto &x : b.ports) if (x.family == AF_INET) { C16Srv y = x; y.udp = y.tcp = 0; bv.push_back(y); }
+        bool all_plain_v4 = true; for (auto &x : a.ports) if (x.family != AF_INET || (x.udp != 53 && x.udp != 0) || (x.tcp != 53 && x.tcp != 0)) all_plain_v4 = false;
+        bool had_failures2 = false; for (auto &e : r.srv_events) if (!e.ok) had_failures2 = true;
+        if (had_failures2) { auto lt = [](const C16Srv &x, const C16Srv &y) { return x.addr < y.addr; }; std::sort(av.begin(), av.end(), lt); std::sort(bv.begin(), bv.end(), lt); }
+        if (av != bv) { r.violate("C16", "save_init_servers_differ", "IPv4 servers of the original " + c16_srvs_text(av) + ", of the channel initialised from its saved options " + c16_srvs_text(bv)); ok = false; }
+        else if (all_plain_v4 && a.ports.size() != b.ports.size()) { r.violate("C16", "save_init_servers_differ", "original servers " + c16_srvs_text(a.ports) + ", channel initialised from its saved options " + c16_srvs_text(b.ports)); ok = false; }
+        else r.note("save_init_servers_compared");
+      }
+      ares_destroy(n);
+      break;
+    }
+    case S_CSVROUND: {
+      // text form fed back to the setter reproduces itself (fresh channel without any system configuration influence on servers)
+      C16Snap a; c16_snap(c.ch, a);
+      if (a.csv == "(null)") { r.violate("C16", "get_servers_csv_null", "ares_get_servers_csv returned NULL"); return; }
+      struct ares_options o; memset(&o, 0, sizeof o);
+      ares_channel_t *n = nullptr;
+      W.api_seq++;
+      if (ares_init_options(&n, &o, 0) != ARES_SUCCESS || !n) return;
+      int rc = ares_set_servers_ports_csv(n, a.csv.c_str());
+      if (rc != ARES_SUCCESS) { r.violate("C16", "csv_not_accepted", "ares_set_servers_ports_csv rejects the text ares_get_servers_csv produced: '" + a.csv + "' -> " + ares_status_name(rc)); ares_destroy(n); return; }
+      C16Snap b; c16_snap(n, b);
+      r.note("csv_round_trip_compared");
+      if (b.csv != a.csv) r.violate("C16", "csv_not_fixed_point", "server list text '" + a.csv + "' fed back to the setter reads back as '" + b.csv + "'");
+      else if (b.ports != a.ports) r.violate("C16", "csv_round_trip_servers_differ", "servers " + c16_srvs_text(a.ports) + " rendered as '" + a.csv + "' come back as " + c16_srvs_text(b.ports));
+      ares_destroy(n);
+      break;
+    }
+    default: break;
+  }
+}
+static void c16_after(Run &run) {
+  // engine steps that change what the application has set
+  if (run.cfg.profile != "C16") return;
+}
+
+// ---------------------------------------------------------------------------------------------
 // C14: any single allocation failure is survived cleanly
 // ---------------------------------------------------------------------------------------------
 struct C14Ref { bool valid = false; uint64_t seed = 0; std::vector<std::string> per_req, ident; };
@@ -1609,6 +1960,17 @@ void profile_attach_more(Run &run) {
   auto prev_after = run.after_step;
   run.after_step = [prev_after, p](Run &r) { if (prev_after) prev_after(r); c06_after(r); if (r.cfg.mode == 0) c10_after(r); };
   if (p == "C09") run.at_end = c09_end;
+  if (p == "C16") {
+    run.extra_step = c16_steps;
+    run.world_ready.push_back([](Run &r) { g_c16_reinit_done = false; g_c16_user = c16_user_expect(r); r.user_set_servers = r.cfg.server_source != 2; r.files_variant = 0; r.files_changed_since_init = false; });
+    auto prev2 = run.after_step;
+    run.after_step = [prev2](Run &r) {
+      if (prev2) prev2(r);
+      if (r.steps_done == 0) return;
+      if (r.probe.count("reinit")) g_c16_reinit_done = true;
+      c16_user_wins(r, "after a step");
+    };
+  }
   if (p == "C14") {
     run.at_end = c14_end; run.before_destroy = c14_before_destroy; run.extra_step = c14_config_steps;
     // behaviour fixed per question (not per attempt or server): a retry caused by the injected failure must meet the same
@@ -1687,6 +2049,7 @@ bool profile_nontrivial(const Run &run) {
   if (p == "C13") return base && get("address_set_checked") > 0;
   if (p == "C09") return base && get("selection_with_failed_servers") > 0;
   if (p == "C14") return run.cfg.knob("fail_at", -1) <= 0 ? base : get("allocation_failure_delivered") > 0;
+  if (p == "C16") return get("user_settings_checked") > 0 && (get("dup_compared") + get("save_init_compared") + get("csv_round_trip_compared") + get("reinit") > 0);
   if (p == "C17") return base && get("cookie_tx_checked") > 0 && get("server_cookie_learned") > 0;
   if (p == "C20") return base && get("differential_compared") > 0 && (W.stat.count("send_short") || W.stat.count("recv_short") || W.stat.count("send_eagain_window") || W.stat.count("recv_eagain_injected") || get("zero_length_datagram") > 0 || !W.fault_fired.empty());
   if (p == "C01") return base && (get("req_from_callback") + get("cancel_in_callback") + get("cancel_with_outstanding") > 0 || !W.fault_fired.empty());
@@ -1699,6 +2062,7 @@ const char *profile_rule(const std::string &prof) {
   if (prof == "C07") return "runs are seeded plans with silent/slow servers and sleep-exactly/overshoot/stall steps; non-trivial = the hint was compared with a real deadline and at least one loop turn ran with an expired deadline; distinct = distinct trace-shape hash";
   if (prof == "C17") return "runs are seeded histories against servers with scripted cookie behaviour (none, valid, changing, wrong client part, short/long, BADCOOKIE once/always/without cookie, support withdrawn and restored), source-address changes and clock jumps placed around 120 s / 300 s / 1 day (including exact-second instants); a reference RFC 7873 client model judges every COOKIE option seen at the virtual server and every delivered answer; non-trivial = cookies were sent and at least one server cookie was learned; distinct = distinct trace-shape hash";
   if (prof == "C09") return "runs are seeded success/failure histories over 1..6 servers (silence, error rcodes, partitions, open/connect/receive failures), rotation on/off, failover options (retry chance 0/1/n, retry delay 0/short/long), server-list edits in flight and clock advances across the retry delay; a reference health table is driven by the public server-state callback stream and every UDP transmission must go to a server the policy allows or be a legal probe copy; non-trivial = at least one transmission was judged while some server had failures; distinct = distinct trace-shape hash";
+  if (prof == "C16") return "runs are seeded option masks and values (each option independently set or left to the system), server sets (IPv4/IPv6/link-local, default/equal/differing ports) given through one of five encodings, sortlists, domains, and virtual resolv.conf/nsswitch/environment contents that disagree with every user-set field; plans interleave traffic with ares_dup, save-options -> init-options, get-servers-csv -> set on a fresh channel, rewrites of the system files and ares_reinit, explicit setters; non-trivial = the user-settings invariant was evaluated and at least one copy/round-trip/reinit happened; distinct = distinct trace-shape hash";
   if (prof == "C14") return "a scenario is a seeded short plan (channel init with options and system files, 1..8 requests of all kinds driven to completion against a healthy network, cache hits, server-list edits, reinit, cancel, dup, save-options, destroy); it is executed once without failure to count its N allocator calls and then once per n in 1..N with exactly the n-th allocation failing (quick tier: at most --max-subs evenly spread n per scenario); evaluations counts executions; non-trivial = the injected failure was actually delivered; distinct = distinct trace-shape hash";
   if (prof == "C13") return "runs are seeded sets of getaddrinfo/gethostbyname/gethostbyaddr/getnameinfo requests (families, hint flags, ports, sortlists, lookup orders, hosts-file names, literals, localhost) against answers with 1..40 unique marker addresses, CNAME chains, other-family and foreign-class records in the answer section and address records in the additional section, with faults on the source-address discovery used for sorting; non-trivial = at least one DNS-answered address set was compared as a multiset with the accepted answers; distinct = distinct trace-shape hash";
   if (prof == "C12") return "runs are seeded sets of search/getaddrinfo/gethostbyname requests over name shapes (0..4 dots, trailing dot, long labels, names that stop fitting once a domain is appended, host aliases) x ndots x domain lists (incl. root) x flags, with a per-candidate outcome (data, NODATA, NXDOMAIN, SERVFAIL, REFUSED, timeout) fixed by keyed hash; the question names seen at the virtual server and the final status are compared with an independent resolv.conf(5) reference; non-trivial = at least one request whose reference candidate list has more than one entry was checked; distinct = distinct trace-shape hash";
